@@ -2,7 +2,7 @@ from registry import rc, fuzz
 
 PROP = dict(
     parts=[rc('C07_xml', quick_timeout=240, thorough_timeout=900),
-           fuzz('C07_xmldecode', quick_runs=300000, thorough_runs=9600000, max_len=4096, quick_timeout=120, thorough_timeout=600)],
+           fuzz('C07_xmldecode', quick_runs=300000, thorough_runs=8000000, max_len=4096, quick_timeout=120, thorough_timeout=600)],
     floor=dict(quick=20000, thorough=200000),
     rule=("Part A (Xml::decode is total and safe, result null or a tree with consistent parent links): (1) rapidcheck documents: an "
           "event-generated element tree rendered with XML declaration / BOM, DOCTYPE (with nested <...> and unterminated), comments, "
@@ -14,8 +14,8 @@ PROP = dict(
           "(thorough 6) characters over {< > / a ! - ? & ; # = ' SP}; (4) libFuzzer on raw bytes (max_len 4096) seeded with the unit-test "
           "documents. Per input: the input String is freed before the result is walked; the result is !xml or: root.parent() is the null "
           "handle, every child c of every element e has c.parent()==e (pointer identity), nodes <= input bytes; if all names match "
-          "[A-Za-z_][A-Za-z0-9_.-]* the decoded tree must also equal decode(encode(tree)) (compact; indented when text is only a sole child). "
-          "Part B: rapidcheck element trees as event lists (open / attribute / text / close n), depth <= 12, names [A-Za-z_][A-Za-z0-9_.-]* "
+          "the XML 1.0 Name production (UTF-8; ASCII part [A-Za-z_:][A-Za-z0-9_:.-]*) the decoded tree must also equal decode(encode(tree)) (compact; indented when text is only a sole child). "
+          "Part B: rapidcheck element trees as event lists (open / attribute / text / close n), depth <= 12, tag and attribute names over the whole XML 1.0 Name grammar the decoder accepts (first: letter, '_', ':' (12%), non-ASCII NameStartChar (12%, 2-4 byte UTF-8, range edges); then also digits '-' '.' ':' U+B7 U+0301 U+203F) "
           "of length 1-70, attribute values and text = NUL-free bytes rich in & < > \" ' ; # reference-like fragments and bytes >= 0x80, "
           "white-space-only and adjacent text nodes; built through the public API; decode(encode(tree, compact)) and, after removing text "
           "that has siblings, decode(encode(tree, indented)) are compared with the plain-STL model after normalisation (merge adjacent "
